@@ -2,7 +2,7 @@
    of the real optimiser's output: optimise (the model's unoptimised Start argument) must
    equal the Start argument found in <dst>. *)
 From Coq Require Import List Arith Bool.
-From Verif Require Import Syntax Rewrite StructExec.
+From Verif Require Import Syntax Rewrite Side StructExec.
 From Verif Require Import Opt.
 Import ListNotations.
 
@@ -34,5 +34,15 @@ Definition omismatches (cs : list ocase) := omismatches_from 0 cs.
 Definition ocase_ok (c : ocase) : bool :=
   match rewrite (oc_src c) with
   | OK body => opt_ok (fun v => existsb (Nat.eqb v) (oc_lits c)) (XDelay (TLit body))
+  | Err _ => false
+  end.
+
+(* all side conditions of C07_end_to_end_machine_partial: the program is inside the compiler theorem, every
+   elided Delay wraps a pure construction, and no native Yield is left in the optimised expression *)
+Definition ocase_e2e (c : ocase) : bool :=
+  match rewrite (oc_src c) with
+  | OK body =>
+      c01_hyps (oc_src c) && opt_ok (fun v => existsb (Nat.eqb v) (oc_lits c)) (XDelay (TLit body)) &&
+      lkx (forallb (lk KS)) (optimise (fun v => existsb (Nat.eqb v) (oc_lits c)) (lookup_nat (oc_eta c)) (XDelay (TLit body)))
   | Err _ => false
   end.
